@@ -1,7 +1,7 @@
 #!/bin/bash
 # usage: validate_seed.sh <ID> : in /tmp/seed-<ID>: build, full test-suite, demo with change (must fail) and without (must pass)
 id=$1
-wt=/tmp/seed-$id
+wt=/tmp/${SEEDPFX:-seed-}$id
 export GOFLAGS=-mod=mod GOPROXY=off GOSUMDB=off GOTOOLCHAIN=local
 cd $wt || exit 2
 out=/var/tmp/seedval-$id.log
